@@ -166,6 +166,25 @@ def aggregate_pred(sigs, perm, split):
     return (not bad, f"Aggregate: {bad} for {len(sigs)} signatures perm={perm} split={split}")
 
 
+def cross_suite_history_pred(sks, ms):
+    """one interpreter: the same keys and messages aggregated and verified under BASIC, then POP, then AUG, then BASIC again;
+    each suite accepts its own honest aggregate and rejects the other suites' aggregates"""
+    pks = [pk_of(k) for k in sks]
+    aggs = {}
+    for s in SUITES:
+        C = suite_cls(s)
+        aggs[s] = C.Aggregate([C.Sign(k, m) for k, m in zip(sks, ms)])
+    bad = []
+    for s in ("basic", "pop", "aug", "basic", "pop"):
+        C = suite_cls(s)
+        if not C.AggregateVerify(pks, ms, aggs[s]):
+            bad.append(f"{s}: own honest aggregate rejected")
+        for s2 in SUITES:
+            if s2 != s and C.AggregateVerify(pks, ms, aggs[s2]):
+                bad.append(f"{s}: accepted the {s2} aggregate")
+    return (not bad, f"same messages under several suites in one process: {bad[:4]}")
+
+
 def aggregate_errors_pred(sig):
     from eth_utils import ValidationError
     from py_ecc.bls import G2Basic as C
@@ -232,6 +251,7 @@ def predicates(rng, tier, only=None):
     for perm in (rng.sample(perms, 4) if tier == "quick" else perms[:60]):
         ps.append(Pred("aggregate-sum", aggregate_pred, (sigs, list(perm), rng.randrange(0, len(sigs)))))
     ps.append(Pred("aggregate-errors", aggregate_errors_pred, (sigs[0],)))
+    ps.append(Pred("aggregate-verify", cross_suite_history_pred, ([rng.randrange(1, O.BLS_R) for _ in range(2)], [b"shared-1", b"shared-2"])))
     ps.append(Pred("basic-distinct-messages", basic_distinct_pred, (rng.randrange(1, O.BLS_R), rng.randrange(1, O.BLS_R), b"same")))
     from py_ecc.bls import G2ProofOfPossession as POP
     n = 3 if tier == "quick" else 8
